@@ -249,6 +249,16 @@ fn main() {
                     let mut long_lived = if rng.bool() { Some(cfg.build()) } else { None };
                     for _ in 0..1 + rng.below(5) {
                         let ht = rng.below(4) == 0;
+                        // what a stream's report_error() writes after a rejected entry (the in-band
+                        // report of a background queue): it relaxes checks for ITSELF only
+                        if let Some(l) = long_lived.as_mut() {
+                            if rng.below(5) == 0 {
+                                use metrique_writer::format::Format;
+                                let mut sink = vec![];
+                                let _ = l.format(&metrique_writer_core::config::MetriqueValidationError::new("metric entry could not be formatted correctly"), &mut sink);
+                                rep.count("error_report_entries_interleaved", 1);
+                            }
+                        }
                         let mut e = gen_valid_entry(&mut rng, &cfg, ht, false);
                         let mut injected: Vec<&str> = vec![];
                         for _ in 0..*rng.pick(&[0usize, 0, 1, 1, 1, 2, 3]) {
